@@ -148,6 +148,9 @@ def r2_include_order(ctx):
             f = s.fn
             ctx.touch(f)
             path = f.expr_operand(s.args[1], s.b, 'T')
+            if f.kind == 'closure':
+                par, caps = capture_trees(P, f)
+                path = subst_captures(path, caps) if caps else path
             if r.startswith(PR):
                 continue
             split = [x for x in walk(path) if x[0] == 'call' and x[1].endswith('::split')]
@@ -179,6 +182,11 @@ def r2_include_order(ctx):
         if h:
             cs = h.calls_to(CAP)
             ok = bool(cs) and bool(h.loops_containing(cs[0].b)) and any(x[0] == 'field' and x[2] == 'cfgs' for x in walk(h.expr_operand(cs[0].args[0], cs[0].b, 'T')))
+            if not ok:
+                # `self.cfgs.iter().for_each(|cfg| cfg.capture_for(..))`
+                for w in per_item_calls(P, h, CAP):
+                    if w.exhaustive and w.it is not None and any(x[0] == 'field' and x[2] == 'cfgs' for x in walk(w.it)) and (w.trees is None or from_item(w.fn, w.trees[0])):
+                        ok = True
             ctx.check(ok, 'all-cfgs-applied:%s' % k.split('::')[-1], '%s applies every kept configuration to the new node' % short(k), h.where())
 
 
@@ -264,6 +272,17 @@ def r4_wildcard(ctx):
                 a1 = peel(f.expr_operand(c.args[1], c.b, 'T'))
                 if a1[0] == 'field' and a1[2] == '0' and any(x[0] == 'call' and x[1].endswith('::split_first') and sf and x[3] == sf[0][3] for x in walk(a1)):
                     seg_ok = True
+            # split form: `let (leading, rest) = path.split_at(depth); map.get(leading.join("."))` → update_from(entry, rest)
+            sa = [x for x in walk(pt) if x[0] == 'call' and x[1].endswith('::split_at')]
+            if pt[0] == 'field' and pt[2] == '1' and sa and not via_any:
+                joined = [x for x in walk(base) if x[0] == 'call' and x[1].endswith('::join') and x[2] and
+                          any(y[0] == 'call' and y[1].endswith('::split_at') and y[3] == sa[0][3] for y in walk(x[2][0])) and peel(x[2][0])[0] == 'field' and peel(x[2][0])[2] == '0']
+                dot = joined and ('"."' in show(joined[0][2][1]) or "'.'" in show(joined[0][2][1]))
+                if joined and dot:
+                    ctx.ok('a literal key consumes exactly the segments joined into it (key = join of the leading part of split_at, recursion with the rest)', s.where())
+                    key = [x for x in walk(base) if x[0] == 'call' and x[1].endswith('Mapping::get')]
+                    ctx.check(bool(key), 'literal-lookup', 'literal keys are looked up exactly (map.get), not by prefix', s.where())
+                    continue
             if is_tail and seg_ok and not via_any:
                 ctx.ok('a literal key consumes exactly the segments joined into it (each turn appends the segment split off the remaining path and recurses with the tail)', s.where())
                 key = [x for x in walk(base) if x[0] == 'call' and x[1].endswith('Mapping::get')]
